@@ -12,7 +12,7 @@ from mc.common import HarnessError, VERIF, scratch_root
 ID = "C14"
 LEVEL = "model_checking"
 ENGINE = "E3"
-TECHNIQUE = "explicit-state search (BFS to fixpoint, deduplicated on a canonical snapshot of all process-global jasm state) over operation histories executed on the real code by a pristine fork server, plus stateless enumeration of ALL histories up to depth 3 (4); every state's trace re-validated in a fresh interpreter"
+TECHNIQUE = "TLC model checking of a TLA+ model of the global configuration with every model transition replayed on the implementation, plus explicit-state search (BFS to fixpoint, deduplicated on a canonical snapshot of all process-global jasm state) over operation histories executed on the real code by a pristine fork server, plus stateless enumeration of ALL histories up to depth 3 (4); every state's trace re-validated in a fresh interpreter"
 RULE = ("operations: a menu of complete compile-and-match operations through the public API chosen so that every piece of "
         "global state collides: full-match flags on/off in both rules sharing one rule path, two different valid_addr "
         "ranges and none, three different sections lists and none (binary input), 0/1/2 capture groups, a macro library "
@@ -47,7 +47,7 @@ def _env():
 
 
 def bounds(tier):
-    return {"depth_stateless": 3 if tier == "quick" else 4, "state_cap": 600, "bfs_time_cap_s": 40 if tier == "quick" else 600,
+    return {"depth_stateless": 3 if tier == "quick" else 4, "state_cap": 600, "bfs_time_cap_s": 150 if tier == "quick" else 900,
             "accumulate_counts": [2, 5, 17, 40, 64] if tier == "quick" else [2, 5, 17, 40, 64, 128, 300]}
 
 
@@ -84,6 +84,11 @@ def shards(tier):
     sh = [{"kind": "bfs", "baseline": baseline}]
     sh += [{"kind": "tree", "first": n, "baseline": baseline} for n in names]
     sh += [{"kind": "accum", "op": n, "baseline": baseline} for n in names]
+    # TLC: model-check tla/JasmConfig.tla, then replay EVERY distinct (model state, step) transition on the real code
+    from mc import tlc_conf
+    obs, stats = tlc_conf.obligations()
+    k = 8
+    sh += [{"kind": "tlc", "obligations": obs[i::k], "stats": stats if i == 0 else {}} for i in range(k)]
     return sh
 
 
@@ -245,7 +250,39 @@ def run_accum(shard, tier, h, res, known):
         raise HarnessError("accumulate explorer produced no nodes")
 
 
+def run_tlc(shard, tier, h, res, known):
+    """conformance of the TLA+ model of the global configuration: for every (model state, step) transition the real
+    global_info after replaying the model trace must be the model's successor state, and the step's outcome class too"""
+    _, history = _ops()
+    wd = h.path("tlc")
+    history.prepare_workdir(wd)
+    srv = Server(wd)
+    try:
+        for ob in shard["obligations"]:
+            hist = ob["path"] + [ob["step"]]
+            d = srv.run(hist)
+            res.evaluations += 1
+            res.nontrivial += 1
+            res.count("tlc_transitions_replayed")
+            got_core = d["cores"][-1]
+            got_res = d["outcomes"][-1][0]
+            before = d["cores"][-2] if len(hist) > 1 else ["unset"] * 5
+            if before != ob["from_core"] or got_core != ob["expect_core"] or got_res != ob["expect_res"]:
+                res.fail({"clause": "model-conformance", "family": "tlc", "history": hist, "model_from": ob["from_core"],
+                          "expected": {"core": ob["expect_core"], "result": ob["expect_res"]},
+                          "observed": {"core_before": before, "core": got_core, "result": d["outcomes"][-1]}, "size": len(hist)}, known)
+    finally:
+        srv.close()
+    for k, v in shard.get("stats", {}).items():
+        res.count(k, v)
+    if shard["obligations"] and len(res.samples) < 1:
+        ob = shard["obligations"][-1]
+        res.samples.append({"tlc_model_trace": ob["path"] + [ob["step"]], "model_state_after": ob["expect_core"], "model_result": ob["expect_res"]})
+
+
 def run_shard(shard, tier, h, res, known):
+    if shard["kind"] == "tlc":
+        return run_tlc(shard, tier, h, res, known)
     if shard["kind"] == "accum":
         return run_accum(shard, tier, h, res, known)
     if shard["kind"] == "tree":
@@ -259,9 +296,10 @@ def coverage_extra(results, tier):
     for r in results:
         for k, v in r.counters.items():
             c[k] = c.get(k, 0) + v
-    return {"states": c.get("states", 0), "transitions": c.get("transitions", 0) + c.get("tree_nodes", 0) + c.get("accum_nodes", 0),
+    extra = {k: c[k] for k in ("tlc_states_generated", "tlc_distinct_states", "model_core_states", "model_transitions_distinct", "tlc_transitions_replayed") if k in c}
+    return {**extra, "states": c.get("states", 0), "transitions": c.get("transitions", 0) + c.get("tree_nodes", 0) + c.get("accum_nodes", 0),
             "accumulation_histories": c.get("accum_nodes", 0),
-            "traces_validated_against_impl": c.get("traces_validated", 0),
+            "traces_validated_against_impl": c.get("traces_validated", 0) + c.get("tlc_transitions_replayed", 0),
             "bfs_transitions": c.get("transitions", 0), "stateless_histories": c.get("tree_nodes", 0),
             "bfs_max_depth": c.get("max_depth", 0), "exhaustive": not c.get("state_cap_hit", 0)}
 
@@ -273,6 +311,14 @@ def controls(h):
 
 
 def replay(case, h):
+    if case.get("family") == "tlc":
+        _, history = _ops()
+        wd = h.path("replay_tlc")
+        history.prepare_workdir(wd)
+        r = subprocess.run([PY, HIST, "hist", wd, json.dumps(case["history"])], capture_output=True, text=True, env=_env())
+        d = json.loads(r.stdout.strip().split("\n")[-1])
+        ok = d["cores"][-1] == case["expected"]["core"] and d["outcomes"][-1][0] == case["expected"]["result"]
+        return not ok, f"real core {d['cores'][-1]} result {d['outcomes'][-1]}; model {case['expected']}"
     _, history = _ops()
     wd = h.path("replay")
     history.prepare_workdir(wd)
